@@ -63,6 +63,18 @@ func (ex *Exec) callVF(fr *frame, fn *ssa.Function, args []Value, site ssa.Instr
 	switch fn.Name() {
 	case "vfSymbolic":
 		return sym.True
+	case "vfScheduled":
+		return sym.Bool(ex.schedOn())
+	case "vfAtomic":
+		saved := ex.sch
+		ex.sch = nil
+		ex.atomicDepth++
+		defer func() {
+			ex.atomicDepth--
+			ex.sch = saved
+		}()
+		ex.call(fr, args[0], nil, site)
+		return nil
 	case "vfInt64", "vfUint64", "vfInt", "vfUint", "vfFloat64":
 		return ex.newInput(ex.inputName(args), 64, fn.Name()[2:])
 	case "vfInt32", "vfUint32", "vfRune", "vfFloat32":
